@@ -28,6 +28,12 @@ CASES = [
   "Rank128: rounding constant 64 -> 63 (wrong index entry for i = 64 mod 128)", "yes"),
  ("m8", "mutation", "bmtree/newpath.go", "return (searchingBits << 32) |", "return ((searchingBits & 0x7fffffff) << 32) |",
   "NewPath: searching bit 31 is dropped", "no: bit 31 of the searching bits needs height 32, outside the domain"),
+ ("x1", "structural", "bmtree/pathlen.go", "\treturn int32(bits.OnesCount32(uint32(p)))\n", "\tn := int32(0)\n\tfor q := uint32(p); q != 0; q &= q - 1 {\n\t\tn++\n\t}\n\treturn n + int32(bits.OnesCount32(0))\n",
+  "PathLen rewritten as a loop (same value): no longer translatable", "-"),
+ ("x2", "structural", "bitmap/get.go", "func Get1(bm []uint64, i int32) uint64 {", "func Get1(bm []uint64, i int32) uint64 {\n\tvar undefinedType notAType\n",
+  "bitmap/get.go no longer type-checks", "-"),
+ ("x3", "structural", "bitmap/get.go", "func Get1(bm []uint64, i int32) uint64 {", "func Get1Renamed(bm []uint64, i int32) uint64 {",
+  "bitmap.Get1 renamed (the listed function does not exist any more)", "-"),
  ("r1", "rewrite", "bmtree/newpath.go", "return (searchingBits << 32) | (bitmap.Mask[length] << uint(height-length))",
   "return (bitmap.Mask[length] << uint(height-length)) | (searchingBits << 32)",
   "NewPath: operands of the commutative | reordered", "-"),
